@@ -3,7 +3,9 @@ package actionlint
 import (
 	"fmt"
 	"sort"
+	"strconv"
 	"strings"
+	"unicode"
 )
 
 // Types
@@ -264,7 +266,11 @@ func (ty *ObjectType) String() string {
 		} else {
 			b.WriteString("; ")
 		}
-		b.WriteString(p)
+		if strings.IndexFunc(p, func(r rune) bool { return !unicode.IsPrint(r) }) >= 0 {
+			b.WriteString(strconv.Quote(p)) // Property names come from user inputs. Do not break the line of error messages
+		} else {
+			b.WriteString(p)
+		}
 		b.WriteString(": ")
 		b.WriteString(ty.Props[p].String())
 	}
